@@ -8,3 +8,4 @@ import LicenseExpr.Props.C04
 #print axioms LE.C04_alone
 #print axioms LE.C04_alone_validates
 #print axioms LE.C04_in_context
+#print axioms LE.C04_in_context_proviso
